@@ -31,6 +31,8 @@ def gen_module(ctx):
     cfgs = json.load(open(os.path.join(vlib.SPEC, SPEC, "configs.json")))
     lines = ["----------------------------- MODULE OpConfigs -----------------------------", "EXTENDS Operator"]
     for name, hooks in sorted(cfgs.items()):
+        # the specification takes Hooks in the order of their paths (plain string order, as sort.Strings gives it)
+        hooks.sort(key=lambda h: h["name"])
         hs = [{k: h[k] for k in ("name", "order", "v0", "kube", "sched")} for h in hooks]
         lines.append("Hooks%s == %s" % (name, tla_value(hs)))
     lines.append("=============================================================================")
@@ -219,7 +221,7 @@ def check_c03(ctx):
                 ctx.notes.append("DIVERGENCE %s: %s" % (o["sig"], o["detail"][:200]))
     ctx.log("queue level: %d behaviours (%d picks) replayed on the real queue, executed task = head of the list" % (len(behs), picks))
     ctx.cov["queue_level_behaviours"] = len(behs)
-    run(ctx, ("C03/",), "placement, head-first, one execution per queue", configs=["A", "B", "D", "G", "H"])
+    run(ctx, ("C03/",), "placement, head-first, one execution per queue", configs=["A", "B", "D", "H", "I"])
 
 
 def backoff_bounds(ctx):
@@ -250,7 +252,7 @@ def check_c04(ctx):
 
 
 def check_c06(ctx):
-    run(ctx, ("C06/",), "bootstrap order, Synchronization delivery", configs=["A", "B", "C", "E", "G", "H"])
+    run(ctx, ("C06/",), "bootstrap order, Synchronization delivery", configs=["A", "B", "C", "E", "G", "I", "J", "K"])
 
 
 def check_c07(ctx):
@@ -281,7 +283,7 @@ def check_c07(ctx):
     # end to end
     mod, cfgs = gen_module(ctx)
     cases = []
-    for cfg in ("A", "C"):
+    for cfg in ("A", "C", "G", "K"):
         for b in gen(ctx, mod, cfg, ctx.pick(25, 300), ctx.pick(45, 70)):
             cases.append({"config": cfg, "hooks": cfgs[cfg], "steps": b})
     stats = replay(ctx, cases, ("C07/",))
